@@ -274,7 +274,11 @@ def oauth2Start : H PUnit := do
   let params : Bytes :=
     (if c.req.rm then lit "rm=true;" else []) ++ (if c.req.redir.isEmpty then [] else lit "redir=" ++ c.req.redir)
   if params.isEmpty && !c.req.rmOther then delS .oauthParams else putS .oauthParams params
-  act (.respond (.redirect (lit "provider") none none))
+  -- `Redirector.Redirect` with the provider's URL (no `redir` following; API mode renders JSON)
+  if c.cfg.json then
+    if ← render then fail "render" else act (.respond (.redirect (lit "provider") none none))
+  else
+    act (.respond (.redirect (lit "provider") none none))
 
 /-- `oauth2.End`. -/
 def oauth2End : H PUnit := do
@@ -616,7 +620,8 @@ def emailVerifyWrap (kind : Bytes) : H Bool := do
   let c ← get
   if !c.cfg.emailAuth then pure true else
   if c.sess.get .tfaAuthed == some (lit "true") then pure true else
-  redirect (mount ++ lit "/2fa/" ++ kind ++ lit "/email/verify") none (some .tfaAuthorizationRequired)
+  -- (a redirect that fails is logged; the wrapped handler does not run and nothing is written)
+  swallowErr (redirect (mount ++ lit "/2fa/" ++ kind ++ lit "/email/verify") none (some .tfaAuthorizationRequired))
   pure false
 
 end AuthbossModel.M
